@@ -69,8 +69,9 @@ pub fn short(h: &str) -> String {
     format!("{}-{}", h.chars().take(8).collect::<String>(), hex::encode(d.as_bytes()))
 }
 
-fn clamp_i32(x: i64) -> i64 {
-    x.clamp(-2_000_000_000, 2_000_000_000)
+/// TLC integers are 32-bit: larger values are clamped, the same way wherever they are logged.
+pub fn clamp_i32(x: i64) -> i64 {
+    x.clamp(-2_147_000_000, 2_147_000_000)
 }
 
 fn entry_json(e: &RawEntry) -> Value {
@@ -203,11 +204,55 @@ pub fn key_of(path: &str) -> Value {
         [b, "i", sub] if band(b).is_some() && sub.parse::<i64>().is_ok() => {
             k("HunkDir", band(b).unwrap(), sub.parse().unwrap(), "", "")
         }
-        [b, "i", _sub, name] if band(b).is_some() && name.parse::<i64>().is_ok() && name.bytes().all(|c| c.is_ascii_digit()) => {
+        // doc/format.md: hunk n is i/{n / 10000 : 5 digits}/{n : 9 digits}; a hunk file anywhere else is
+        // not where a reader of the documented format looks for it
+        [b, "i", sub, name]
+            if band(b).is_some()
+                && name.len() == 9
+                && name.bytes().all(|c| c.is_ascii_digit())
+                && *sub == format!("{:05}", name.parse::<i64>().unwrap() / 10000) =>
+        {
             k("Hunk", band(b).unwrap(), name.parse().unwrap(), "", "")
         }
         _ => k("Other", -1, -1, "", path),
     }
+}
+
+/// Which fields differ between two decoded payloads (of a hunk: per entry field, addresses as
+/// "a.h" / "a.s" / "a.n" / "a.count"; else the payload field names). Used to pick bit flips of
+/// different kinds.
+pub fn diff_signature(a: &Value, b: &Value) -> String {
+    let mut sig: Vec<String> = Vec::new();
+    let (ea, eb) = (a["es"].as_array().cloned().unwrap_or_default(), b["es"].as_array().cloned().unwrap_or_default());
+    if ea.len() != eb.len() {
+        sig.push("es.count".into());
+    }
+    for (x, y) in ea.iter().zip(eb.iter()) {
+        for k in ["p", "pv", "k", "mt", "mode", "u", "g", "t", "ht"] {
+            if x[k] != y[k] {
+                sig.push(k.to_string());
+            }
+        }
+        let (ax, ay) = (x["a"].as_array().cloned().unwrap_or_default(), y["a"].as_array().cloned().unwrap_or_default());
+        if ax.len() != ay.len() {
+            sig.push("a.count".into());
+        }
+        for (p, q) in ax.iter().zip(ay.iter()) {
+            for k in ["h", "s", "n"] {
+                if p[k] != q[k] {
+                    sig.push(format!("a.{k}"));
+                }
+            }
+        }
+    }
+    for k in ["count", "c", "nok", "sok"] {
+        if a[k] != b[k] {
+            sig.push(k.to_string());
+        }
+    }
+    sig.sort();
+    sig.dedup();
+    sig.join("+")
 }
 
 /// Relative path of the subdirectory name for a block file: the parent directory name.
